@@ -11,6 +11,11 @@ static int swz2(int v) { switch (v) { case 50: return 1; case 80: return 2; case
 static int swz3(unsigned long v) { switch (v) { case 8: return 1; case 4: return 2; case 12: return 3; case 2: return 4; case 6: return 5; case 10: return 6; case 14: return 7; case 5: return 8; case 7: return 9; case 9: return 10; case 11: return 11;
 	case 0xffffffffffffffff: return 12; case 0x8000000000000000: return 13; case 1: return 14; case 3: return 15; case 13: return 16; case 15: return 17; case 0: return 18; default: return 0; } }
 static int swz4(int v) { switch (v) { case 1: return 1; case 3: return 2; case 2: return 3; case 9: return 4; case 7: return 5; case 8: return 6; case 5: return 7; case 4: return 8; case 6: return 9; case -1: return 10; case -3: return 11; case -2: return 12; default: return 0; } }
+/* a switch body (or a body inside it) that is a single labelled statement with several labels in a row, no braces */
+static int swu1(int x) { int r = 0; switch (x) case -3: case 4: r = 5; return r; }
+static int swu2(int x, int c) { int r = 0; switch (x) { case 1: if (c) case 2: default: r += 7; r += 1; } return r; }
+static int swu3(int x) { int r = 0; switch (x) default: case 1: case 2: r++; return r; }
+static int swu4(int x) { int r = 1; switch (x) { case 1: l1: l2: case 2: r *= 2; case 3: while (r < 50) case 4: case 5: r *= 3; } return r; }
 static int duff(int n) { int r = 0, k = (n + 3) / 4; if (n <= 0) return 0; switch (n % 4) { case 0: do { r++; case 3: r++; case 2: r++; case 1: r++; } while (--k > 0); } return r; }
 static int gt(int n) { int i = 0, s = 0; again: if (i >= n) goto done; s += i; ++i; if (s > 1000) goto done; goto again; done: return s; }
 static int nested(void) { int i, j, c = 0; for (i = 0; i < 10; ++i) { if (i == 7) break; for (j = 0; j < 10; ++j) { if (j == i) continue; if (j > 5) break; c += j; } if (i % 2) continue; c += 100; } return c; }
@@ -33,6 +38,7 @@ int main(void) {
 	{ char c = 0; if (c) P(1); else P(2); float f = 0.0f; if (f) P(3); else P(4); double d = 0.5; if (d) P(5); long l = 1L << 32; if (l) P(6); else P(7); void *p = 0; if (p) P(8); else P(9); if (!p) P(10); unsigned char u = 0; while (++u) ; P(u); }
 	{ long l = 1L << 32; int n = 0; while (l) { l >>= 8; n++; } P(n); for (l = 1L << 33; l; l >>= 11) n++; P(n); do n++; while (l); P(n); P(l ? 1 : 2); P((1L << 32) && 1); P(0x100000000L || 0); P(!(1L << 32)); double z = 0.0; P(z ? 1 : 2); P(!z); P(z || 0); P(-z && 1); }
 	{ int k; for (k = -5; k < 100; ++k) { int a = swz1(k), b = swz2(k), c = swz3(k < 0 ? 0x8000000000000000 - k - 1 : k), d = swz4(k); if (a | b | c | d) printf("swz %d: %d %d %d %d\n", k, a, b, c, d); } P(swz3(-1UL)); }
+	{ int k; for (k = -4; k < 7; ++k) printf("swu %d: %d %d %d %d %d\n", k, swu1(k), swu2(k, 0), swu2(k, 1), swu3(k), swu4(k)); }
 	{ /* the controlling expression of a switch is promoted: narrow results of casts, assignments, ++ and calls must be extended first */
 	  int v = 0x141, r = 0; signed char sc = 0; unsigned char uc = 255; short sh = 0; _Bool bb = 0;
 	  switch ((unsigned char)v) { case 0x41: r = 1; break; default: r = 100; } P(r);
